@@ -7,6 +7,7 @@
 package termincommittee
 
 import (
+	"bytes"
 	"context"
 	"fmt"
 	"github.com/orbs-network/lean-helix-go/instrumentation/metrics"
@@ -120,6 +121,20 @@ type preparedLocallyProps struct {
 
 func (tic *TermInCommittee) isQuorum(ids []primitives.MemberId) (bool, uint, uint) {
 	return quorum.IsQuorum(ids, tic.committeeMembers)
+}
+
+// isCanonicalBlockRef reports whether the signed header's bytes are exactly the builder's encoding of its field
+// values. Prepared proofs and block proofs carry one rebuilt reference for all signers, so a signature counts only
+// if it was made over that canonical encoding.
+func isCanonicalBlockRef(ref *protocol.BlockRef) bool {
+	canonical := (&protocol.BlockRefBuilder{
+		MessageType: ref.MessageType(),
+		InstanceId:  ref.InstanceId(),
+		BlockHeight: ref.BlockHeight(),
+		View:        ref.View(),
+		BlockHash:   ref.BlockHash(),
+	}).Build()
+	return bytes.Equal(canonical.Raw(), ref.Raw())
 }
 
 func (tic *TermInCommittee) isCommitteeMember(memberId primitives.MemberId) bool {
@@ -424,6 +439,9 @@ func (tic *TermInCommittee) validatePreprepare(ppm *interfaces.PreprepareMessage
 	if header.MessageType() != protocol.LEAN_HELIX_PREPREPARE || header.InstanceId() != tic.instanceId {
 		return errors.Errorf("signed header is not a PREPREPARE of this instance (type %v, instance %v)", header.MessageType(), header.InstanceId())
 	}
+	if !isCanonicalBlockRef(header) {
+		return errors.Errorf("signed header is not canonically encoded")
+	}
 	if err := tic.keyManager.VerifyConsensusMessage(header.BlockHeight(), header.Raw(), sender); err != nil {
 		tic.logger.ConsensusTrace("failed to verify preprepare - maybe a committee mismatch?", err, log.Stringable("sender", sender))
 
@@ -473,6 +491,10 @@ func (tic *TermInCommittee) HandlePrepare(pm *interfaces.PrepareMessage) {
 
 	if header.MessageType() != protocol.LEAN_HELIX_PREPARE {
 		tic.logger.Info("LHMSG RECEIVED PREPARE IGNORE - signed header has type %v", header.MessageType())
+		return
+	}
+	if !isCanonicalBlockRef(header) {
+		tic.logger.Info("LHMSG RECEIVED PREPARE IGNORE - signed header is not canonically encoded")
 		return
 	}
 	if !tic.isCommitteeMember(sender.MemberId()) {
@@ -565,6 +587,10 @@ func (tic *TermInCommittee) HandleCommit(cm *interfaces.CommitMessage) {
 
 	if header.MessageType() != protocol.LEAN_HELIX_COMMIT {
 		tic.logger.Info("LHMSG RECEIVED COMMIT IGNORE - signed header has type %v", header.MessageType())
+		return
+	}
+	if !isCanonicalBlockRef(header) {
+		tic.logger.Info("LHMSG RECEIVED COMMIT IGNORE - signed header is not canonically encoded")
 		return
 	}
 	if !tic.isCommitteeMember(sender.MemberId()) {
